@@ -40,7 +40,7 @@ class SeqBM(BaseBrownian):
     def levy_area_approximation(self): return self._levy
 
 
-def make_grad(method, sde_type, noise_type, d=1, m=1, options=None, seed=13, nsteps=2):
+def make_grad(method, sde_type, noise_type, d=1, m=1, options=None, seed=13, nsteps=2, y0_grad=True):
     m_eff = d if noise_type == 'diagonal' else m
     syms = ps.sde_symbols(noise_type, d, m_eff, nth=1)
     funcs, base = ps.test_functions(syms, seed)
@@ -62,7 +62,7 @@ def make_grad(method, sde_type, noise_type, d=1, m=1, options=None, seed=13, nst
         th = B.x('theta', ())
         v = B.x('v', (1, d))
         if B.sym:
-            y0.requires_grad_(True)
+            y0.requires_grad_(y0_grad)   # y0_grad=False: the initial state is plain data, only the parameter is differentiated
             th.requires_grad_(True)
         user = ps.UserSDE(B, noise_type, sde_type, d, m_eff, base_polys=base, theta=[th])
         sde = ForwardSDE(user)
@@ -76,8 +76,14 @@ def make_grad(method, sde_type, noise_type, d=1, m=1, options=None, seed=13, nst
         extra0 = solver.init_extra_solver_state(ts[0], y0)
         ys, _ = solver.integrate(y0, ts, extra0)
         yT = ys[-1]
-        gy, gth = torch.autograd.grad([yT], [y0, th], grad_outputs=[v], allow_unused=True)
-        out = {'yT': yT, 'gy': gy, 'gth': gth if gth is not None else 0.0 * v.sum()}
+        if y0_grad:
+            gy, gth = torch.autograd.grad([yT], [y0, th], grad_outputs=[v], allow_unused=True)
+        else:
+            gy = None
+            gth, = torch.autograd.grad([yT], [th], grad_outputs=[v], allow_unused=True)
+        out = {'yT': yT, 'gth': gth if gth is not None else 0.0 * v.sum()}
+        if y0_grad:
+            out['gy'] = gy
         if B.sym:
             # the SPEC: v . d yT / d y0_j and v . d yT / d theta by forward differentiation of the VALUE
             ynodes = list(y0.a.reshape(-1))
@@ -93,10 +99,13 @@ def make_grad(method, sde_type, noise_type, d=1, m=1, options=None, seed=13, nst
                 acc = acc + v.a[0, i] * fwd_tangent(yT.a[0, i], {tn.id: 1})
             arr = np.empty((1, d), dtype=object)
             arr[0, :] = [Node.const(x) for x in tys]
-            out['ty'] = ST(arr)
+            if y0_grad:
+                out['ty'] = ST(arr)
             out['tth'] = Node.const(acc)
         else:
-            out['ty'], out['tth'] = out['gy'], out['gth']
+            if y0_grad:
+                out['ty'] = out['gy']
+            out['tth'] = out['gth']
         return out
 
     def sample(rng):
